@@ -1,6 +1,9 @@
 """Entry point: python -m harness.run Cxx quick|thorough|--replay file"""
 import importlib
+import os
+import subprocess
 import sys
+import tempfile
 import traceback
 
 from harness import common
@@ -11,6 +14,26 @@ def main(argv):
         print("usage: check Cxx quick|thorough | --replay <file>")
         return 2
     prop = argv[0].upper()
+    if os.environ.get("VERIF_CHILD") != "1" and "--replay" not in argv:
+        # run the check in a child so that a native crash of the code under test (abort/segfault inside
+        # numpy/scipy/h5py caused by a broken implementation) becomes a verdict instead of a dead check
+        fd, crumb = tempfile.mkstemp(prefix=f"verif-crumb-{prop}-")
+        os.close(fd)
+        env = dict(os.environ, VERIF_CHILD="1", VERIF_CRUMB=crumb)
+        try:
+            rc = subprocess.run([sys.executable, "-m", "harness.run"] + argv, env=env).returncode
+            if rc in (0, 1, 2):
+                return rc
+            tier = argv[1] if len(argv) > 1 else os.environ.get("VERIF_TIER", "quick")
+            seed = int(os.environ.get("VERIF_SEED", "0") or 0)
+            print(f"check process for {prop} died with status {rc}")
+            return common.report_native_crash(prop, tier if tier in ("quick", "thorough") else "quick", seed, rc, crumb)
+        finally:
+            for pth in (crumb, crumb + ".audit"):
+                try:
+                    os.remove(pth)
+                except OSError:
+                    pass
     try:
         module = importlib.import_module(f"harness.{prop.lower()}")
     except ModuleNotFoundError as e:
